@@ -17,7 +17,7 @@ const maxExpressionTokens = 4096
 const maxExpressionLength = 16 * maxExpressionTokens
 
 func ExpandAndEvaluate(expr []token, symbols map[string][]token) (int, error) {
-	return expandAndEvaluate(expr, symbols, make(map[string][]token))
+	return expandAndEvaluate(expr, symbols, make(map[string][]token), nil)
 }
 
 // expandAndEvaluate evaluates expr. The values it resolves on the way are kept
@@ -25,11 +25,16 @@ func ExpandAndEvaluate(expr []token, symbols map[string][]token) (int, error) {
 // them again: otherwise every FOR count would walk the whole chain of symbols
 // it can reach, and many blocks counted through a long chain would cost the
 // product of the two.
-func expandAndEvaluate(expr []token, all map[string][]token, resolved map[string][]token) (int, error) {
+//
+// failed, if not nil, holds the symbols whose values could not be resolved by
+// earlier calls; the caller vouches that such a failure is final (the values
+// of symbols never change, so it is unless an undefined name was in the way).
+func expandAndEvaluate(expr []token, all map[string][]token, resolved map[string][]token, failed map[string]error) (int, error) {
 	// only the symbols the expression can reach matter; resolving all of
 	// them for every FOR count would make the cost of a count grow with
 	// the number of unrelated definitions
 	symbols := make(map[string][]token)
+	var knownFailure error
 	var collect func(toks []token)
 	collect = func(toks []token) {
 		for _, tok := range toks {
@@ -42,6 +47,12 @@ func expandAndEvaluate(expr []token, all map[string][]token, resolved map[string
 			if _, done := resolved[tok.val]; done {
 				continue
 			}
+			if err, bad := failed[tok.val]; bad {
+				if knownFailure == nil {
+					knownFailure = err
+				}
+				continue
+			}
 			if val, ok := all[tok.val]; ok {
 				symbols[tok.val] = val
 				collect(val)
@@ -49,6 +60,9 @@ func expandAndEvaluate(expr []token, all map[string][]token, resolved map[string
 		}
 	}
 	collect(expr)
+	if knownFailure != nil {
+		return 0, knownFailure
+	}
 
 	graph := buildReferenceGraph(symbols)
 
@@ -57,7 +71,7 @@ func expandAndEvaluate(expr []token, all map[string][]token, resolved map[string
 		return 0, fmt.Errorf("symbol graph contains cycles: %s", key)
 	}
 
-	err := expandExpressionsInto(symbols, graph, resolved)
+	err := expandExpressionsInto(symbols, graph, resolved, failed)
 	if err != nil {
 		return 0, err
 	}
@@ -81,6 +95,20 @@ func expandAndEvaluate(expr []token, all map[string][]token, resolved map[string
 }
 
 func expandValue(key string, values, resolved map[string][]token, graph map[string][]string) ([]token, error) {
+	return expandValueRemembering(key, values, resolved, graph, nil)
+}
+
+// expandValueRemembering is expandValue; if failed is not nil, the symbols
+// whose values cannot be resolved are recorded in it
+func expandValueRemembering(key string, values, resolved map[string][]token, graph map[string][]string, failed map[string]error) (output []token, err error) {
+	if failed != nil {
+		defer func() {
+			if err != nil {
+				failed[key] = err
+			}
+		}()
+	}
+
 	// load key value or error
 	value, valOk := values[key]
 	if !valOk {
@@ -98,7 +126,7 @@ func expandValue(key string, values, resolved map[string][]token, graph map[stri
 		for _, dep := range deps {
 			_, resOk := resolved[dep]
 			if !resOk {
-				_, err := expandValue(dep, values, resolved, graph)
+				_, err := expandValueRemembering(dep, values, resolved, graph, failed)
 				if err != nil {
 					return nil, err
 				}
@@ -108,7 +136,7 @@ func expandValue(key string, values, resolved map[string][]token, graph map[stri
 
 	// create new token slice and append tokens from the symbol value
 	// while replacing reference tokens with their resolved values
-	output := make([]token, 0)
+	output = make([]token, 0)
 	for _, token := range value {
 		if len(output) > maxExpressionTokens {
 			// stop before more is built than can be accepted
@@ -141,7 +169,7 @@ func expandValue(key string, values, resolved map[string][]token, graph map[stri
 
 func expandExpressions(values map[string][]token, graph map[string][]string) (map[string][]token, error) {
 	resolved := make(map[string][]token)
-	err := expandExpressionsInto(values, graph, resolved)
+	err := expandExpressionsInto(values, graph, resolved, nil)
 	if err != nil {
 		return nil, err
 	}
@@ -150,14 +178,14 @@ func expandExpressions(values map[string][]token, graph map[string][]string) (ma
 
 // expandExpressionsInto resolves values and adds them to resolved, which may
 // already hold the resolved values of other symbols
-func expandExpressionsInto(values map[string][]token, graph map[string][]string, resolved map[string][]token) error {
+func expandExpressionsInto(values map[string][]token, graph map[string][]string, resolved map[string][]token, failed map[string]error) error {
 	// in sorted order, so that the same input always reports the same error
 	for _, key := range sortedKeys(values) {
 		_, ok := resolved[key]
 		if ok {
 			continue
 		}
-		expanded, err := expandValue(key, values, resolved, graph)
+		expanded, err := expandValueRemembering(key, values, resolved, graph, failed)
 		if err != nil {
 			return err
 		}
